@@ -18,7 +18,7 @@ def run(ck):
     ck.assumptions += ["ID generator reset to the sequential generator at the start of each run"]
     binary = ck.binary("tick")
     d = core.scratch("c03-")
-    n_sys = 40 if q else 600
+    n_sys = 40 if q else 250
     paths = []
     for k, procs in enumerate([1, 4, 16, 2]):
         p = os.path.join(d, "run%d.ndjson" % k)
